@@ -257,7 +257,8 @@ func instrPos(in ssa.Instruction) token.Pos {
 
 func c40(r *core.Run) {
 	r.Explanation = "Decided clauses (narrow): (R1) numeric type declarations are self-consistent: every sema.TType numeric type declaration names only its own name constant, tag and bounds (TTypeMinInt/MaxInt, …), and every bound variable TTypeMinInt/MaxInt is initialised from the math constant of the same width and signedness; " +
-		"(R2) integer literal kinds map to their base (binary 2, octal 8, decimal 10, hexadecimal 16) in common.IntegerLiteralKind.Base."
+		"(R2) integer literal kinds map to their base (binary 2, octal 8, decimal 10, hexadecimal 16) in common.IntegerLiteralKind.Base; " +
+		"(R3) every key under which the compiler pools a literal constant names all components of its key type (kind, text, sign); (R4) the `\\u{…}` escape accepts up to 8 hexadecimal digits."
 	r.NotDecided = "that literal values are parsed and range-checked to the written value (arithmetic on digit strings); string escapes."
 	w := r.W
 	p := w.Pkg("sema")
@@ -364,6 +365,105 @@ func c40(r *core.Run) {
 		r.Undecided("R2.bases", "common.(IntegerLiteralKind).Base", "does not resolve")
 	}
 	r.Floor("R2.bases", 4)
+	constantKeysComplete(r, "R3.constkeys")
+	r.Floor("R3.constkeys", 5)
+
+	// R4 unicode escapes: `\u{…}` takes up to 8 hexadecimal digits (language constant): the digit loop of
+	// parser.parseStringLiteralContent is bounded by a comparison of its counter with the constant 8
+	if fn := mustFn(r, "R4.escapes", "parser", "", "parseStringLiteralContent"); fn != nil {
+		found := false
+		var others []string
+		core.Instrs(fn, true, func(in ssa.Instruction) {
+			bo, ok := in.(*ssa.BinOp)
+			if !ok || bo.Op != token.LSS {
+				return
+			}
+			c, ok := bo.Y.(*ssa.Const)
+			if !ok || c.Value == nil {
+				return
+			}
+			if _, isPhi := bo.X.(*ssa.Phi); !isPhi {
+				if _, isLoad := bo.X.(*ssa.UnOp); !isLoad {
+					return
+				}
+			}
+			if c.Value.ExactString() == "8" {
+				found = true
+			} else {
+				others = append(others, c.Value.ExactString())
+			}
+		})
+		r.Check(found, "R4.escapes", "parser.parseStringLiteralContent: \\u{…} digit bound", fn.Pos(), "the escape's digit loop accepts up to 8 hexadecimal digits",
+			"no loop counter is compared with 8 any more (bounds found: "+strings.Join(others, ",")+"): zero-padded escapes such as \\u{00000041} are no longer decoded to the code point written")
+	}
+	r.Floor("R4.escapes", 1)
+}
+
+// constantKeysComplete: every key under which the compiler pools a constant names every component of its key type —
+// a composite literal of a constantUniqueKey implementation sets all fields of the struct (a missing component, e.g. the
+// sign of a fixed-point literal, makes two different literals share one pooled constant in the VM only).
+func constantKeysComplete(r *core.Run, rule string) {
+	w := r.W
+	p := w.Pkg("bbq/compiler")
+	if p == nil {
+		r.Undecided(rule, "bbq/compiler", "package not loaded")
+		return
+	}
+	iface, _ := p.Types.Scope().Lookup("constantUniqueKey").(*types.TypeName)
+	if iface == nil {
+		r.Undecided(rule, "bbq/compiler.constantUniqueKey", "does not resolve")
+		return
+	}
+	it, _ := iface.Type().Underlying().(*types.Interface)
+	for _, f := range p.Syntax {
+		ast.Inspect(f, func(n ast.Node) bool {
+			cl, ok := n.(*ast.CompositeLit)
+			if !ok {
+				return true
+			}
+			tv, ok := p.TypesInfo.Types[cl]
+			if !ok || it == nil || !types.Implements(tv.Type, it) {
+				return true
+			}
+			st, ok := tv.Type.Underlying().(*types.Struct)
+			if !ok {
+				return true
+			}
+			if enclosingFuncName(f, cl.Pos()) == "?" {
+				return true // package-level interface assertions `var _ I = T{}`
+			}
+			set := map[string]bool{}
+			positional := 0
+			for _, e := range cl.Elts {
+				if kv, ok := e.(*ast.KeyValueExpr); ok {
+					if id, ok := kv.Key.(*ast.Ident); ok {
+						set[id.Name] = true
+					}
+				} else {
+					positional++
+				}
+			}
+			var missing []string
+			for i := 0; i < st.NumFields(); i++ {
+				if !set[st.Field(i).Name()] && positional < st.NumFields() {
+					missing = append(missing, st.Field(i).Name())
+				}
+			}
+			_, tn := core.ExprTypeName(cl, p.TypesInfo)
+			r.Check(len(missing) == 0, rule, "bbq/compiler: "+tn+"{…} at "+enclosingFuncName(f, cl.Pos()), cl.Pos(), "every component of the key is given",
+				"the pooled-constant key leaves out "+strings.Join(missing, ",")+": literals that differ only there share one constant in compiled code")
+			return true
+		})
+	}
+}
+
+func enclosingFuncName(f *ast.File, pos token.Pos) string {
+	for _, d := range f.Decls {
+		if fd, ok := d.(*ast.FuncDecl); ok && fd.Pos() <= pos && pos <= fd.End() {
+			return fd.Name.Name
+		}
+	}
+	return "?"
 }
 
 // stringNormalisation: StringValue literals only in the normalising constructor; unsafe constructors have no shipped caller.
